@@ -234,8 +234,15 @@ def rule_r5(ctx: Ctx) -> None:
             what = None
             if isinstance(n, _ast.Call):
                 name = dotted(n.func) or ""
-                if name in ("open", "io.open", "os.open", "codecs.open") or (isinstance(n.func, _ast.Attribute) and n.func.attr in ("read_text", "read_bytes", "open")):
+                if name in ("open", "io.open", "os.open", "codecs.open"):
                     what = norm(n)[:70]
+                elif isinstance(n.func, _ast.Attribute) and n.func.attr in ("read_text", "read_bytes", "open"):
+                    try:
+                        rty = T.expr(fn, n.func.value, loc)
+                    except Exception:
+                        rty = None
+                    if not (rty and rty.classes and not any(c in owners for c in rty.classes)):
+                        what = norm(n)[:70]  # (a method of that name on another class of the repository - the bit reader - is not a file)
             elif isinstance(n, _ast.Attribute) and n.attr == "text" and isinstance(n.ctx, _ast.Load):
                 try:
                     ty = T.expr(fn, n.value, loc)
